@@ -6,6 +6,7 @@ import (
 	"io"
 	"strconv"
 	"strings"
+	"unicode/utf8"
 )
 
 type FileNamer interface {
@@ -765,6 +766,11 @@ func readConst(tr *tokenReader) (Const, []string, error) {
 	case cons.SimpleType == typeString:
 		if tk.kind != tokenKindStringLiteral {
 			return cons, warnings, readError(tk, "%v unassignable to %v", tk.kind, cons.SimpleType)
+		}
+		// the literal is copied into the generated source as it stands
+		_, err := strconv.Unquote(string(tk.concrete))
+		if err != nil || !utf8.Valid(tk.concrete) || bytes.IndexByte(tk.concrete, 0) >= 0 {
+			return cons, warnings, readError(tk, "%q is not a valid string literal", tk.concrete)
 		}
 	case cons.SimpleType == typeBool:
 		if tk.kind != tokenKindTrue && tk.kind != tokenKindFalse {
